@@ -20,6 +20,7 @@ func runC13(c *Check) {
 	c.nmLookup()
 	c.headerForOffset()
 	c.mappingHandOver()
+	c.nmLookupPure()
 }
 
 // ---- R7: the mapping's parameters are handed to the segment search and to the base
